@@ -203,23 +203,32 @@ theorem rsamd5_agrees_with_library (dec : Bytes → Bytes × Bool) (chunk : Nat)
     have : (dec pk).1.length < 3 := by omega
     simp [this, hlib]
 
-/-- **RSAMD5 tag = the library's, without a base64 hypothesis, for unwrapped
-key texts** whose every 256-character chunk but the last holds only alphabet
-characters (any well-formed unwrapped key, and any text that is malformed or
-padded only in its last chunk). Full statement, still resting on the named
-hypothesis `hfed`: `rsamd5_agrees_with_library` (any text). Missing for the
-full strength: "the decoder ignores CR/LF wherever they stand" for wrapped
-texts and an error-prefix argument for a decode error before the last chunk;
-both are exercised on every run by the RSAMD5 sweep. -/
-theorem rsamd5_agrees_with_library_unwrapped_partial (flags proto : Nat) (pk : Bytes) (t : Nat)
-    (hnl : NLFree pk) (hclean : ChunksClean SdnsVerif.Gen.C14.key_tag_chunk (pk.length + 1) pk)
+/-- **RSAMD5 tag = the library's, no hypothesis left.** For every key text —
+wrapped with CR / LF anywhere, padded, malformed at any point —
+`rsamd5KeyTag`'s CR/LF-skipping chunked read sees exactly the octets one decode
+of the whole text yields (`rsamd5Fed_eq_decode`: the decoder model ignores line
+breaks wherever they stand, a chunk that decodes to its full size is clean
+groups, and a chunk that does not ends the decode the same way whatever
+follows), so wherever the library has an answer `KeyTag` gives the same. -/
+theorem rsamd5_agrees_with_library_b64 (flags proto : Nat) (pk : Bytes) (t : Nat)
     (hlib : libKeyTag b64Decode flags proto 1 pk = some t) :
     keyTag b64Decode SdnsVerif.Gen.C14.key_tag_chunk 5456 t flags proto 1 pk = t :=
   rsamd5_agrees_with_library b64Decode _ flags proto pk t
-    (rsamd5Fed_unwrapped _ (by decide) (by decide) (pk.length + 1) pk (by omega) hnl hclean) hlib
+    (rsamd5Fed_eq_decode _ (by decide) (by decide) (pk.length + 1) pk (by omega)) hlib
+
+/-- **`KeyTag` = `DNSKEY.KeyTag` for every algorithm number and every key text
+the library answers for** (decoder model, tree's chunk size, documented ceiling). -/
+theorem keytag_equals_library (flags proto alg : Nat) (hf : flags < 65536) (hp : proto < 256) (ha : alg < 256)
+    (pk : Bytes) (t : Nat) (hlib : libKeyTag b64Decode flags proto alg pk = some t) :
+    keyTag b64Decode SdnsVerif.Gen.C14.key_tag_chunk 5456 t flags proto alg pk = t := by
+  by_cases h1 : alg = 1
+  · subst h1; exact rsamd5_agrees_with_library_b64 flags proto pk t hlib
+  · exact keytag_agrees_with_library_b64 flags proto alg hf hp ha h1 pk t hlib
 
 example : keyTag b64Decode 256 5456 (0x0203) 257 3 1 [65, 81, 73, 68, 66, 65, 61, 61] = 0x0203 := by decide
 
+-- a wrapped RSAMD5 text ("AQID" LF "BA==" = 01 02 03 04): the tag is octets len-3, len-2
+example : keyTag b64Decode 256 5456 (0x0203) 257 3 1 [65, 81, 73, 68, 10, 66, 65, 61, 61] = 0x0203 := by decide
 example : rsamd5KeyTag (fun s => (s, true)) 4 [1, 2, 10, 3, 4, 5, 6, 7] = 5 * 256 + 6 := by decide
 example : rsamd5KeyTag (fun s => (s, true)) 4 [1, 10, 2] = 0 := by decide
 
